@@ -1,7 +1,7 @@
 (* The definitions of Kernels/Gen13.v -- regenerated on every run from /repo's current source by tools/py2v.py --
    equal the hand-written model functions the C13 theorems speak about.  An edit of one of those source lines
    changes Gen13.v and with it these obligations. *)
-From Coq Require Import List ZArith QArith Qround Qabs Lia Lqa Bool.
+From Coq Require Import List ZArith QArith Qround Qabs Qminmax Lia Lqa Bool.
 From SV Require Import Base.Rounding Kernels.Gen13 Model.ConstSignal.
 Local Open Scope Q_scope.
 
@@ -13,3 +13,56 @@ Proof.
   { unfold Qdiv. rewrite Qabs_Qmult. rewrite (Qabs_pos (/ unit)); [reflexivity|]. apply Qlt_le_weak. now apply Qinv_lt_0_compat. }
   now rewrite E.
 Qed.
+
+(* ---- the helper's bounding box ---- *)
+Lemma Qmin_qmin a b : Qmin a b == qmin a b.
+Proof.
+  unfold qmin. destruct (Qle_bool a b) eqn:E.
+  - apply Qle_bool_iff in E. now apply Q.min_l.
+  - assert (H : b <= a). { destruct (Qlt_le_dec b a) as [L|L]; [now apply Qlt_le_weak|]. apply Qle_bool_iff in L. congruence. }
+    now apply Q.min_r.
+Qed.
+Lemma Qmax_qmax a b : Qmax a b == qmax a b.
+Proof.
+  unfold qmax. destruct (Qle_bool a b) eqn:E.
+  - apply Qle_bool_iff in E. now apply Q.max_r.
+  - assert (H : b <= a). { destruct (Qlt_le_dec b a) as [L|L]; [now apply Qlt_le_weak|]. apply Qle_bool_iff in L. congruence. }
+    now apply Q.max_l.
+Qed.
+
+(* centre, width and sweep in channels, as the model's add_constant_signal computes them *)
+Theorem k13_box f_start fmin df dt width drift (Tn : nat) : 0 < df -> (1 <= Tn)%nat ->
+  let c0 := (f_start - fmin) / df in
+  let w := width / df in
+  let D := drift * dt / df in
+  src_px_start f_start fmin df == c0 /\
+  src_px_width_offset width df == 2 * Qabs w /\
+  src_px_drift_offset drift dt df (Z.of_nat Tn) == D * inject_Z (sweep_steps Tn false) /\
+  src_px_drift_offset drift dt df (Z.of_nat Tn) + src_px_drift_smear_extra drift dt df == D * inject_Z (sweep_steps Tn true) /\
+  (forall pdo pwo, pwo == 2 * Qabs w ->
+     src_bounding_start_index c0 pdo pwo = box_lo c0 w pdo /\ src_bounding_stop_index c0 pdo pwo = box_hi c0 w pdo).
+Proof.
+  intros Hdf HT. cbn zeta.
+  assert (Nz : ~ df == 0) by (intros E; rewrite E in Hdf; discriminate).
+  split; [unfold src_px_start; reflexivity|].
+  split.
+  { unfold src_px_width_offset. change (inject_Z 2) with 2.
+    assert (E : Qabs (width / df) == Qabs width / df).
+    { unfold Qdiv. rewrite Qabs_Qmult. rewrite (Qabs_pos (/ df)); [reflexivity|]. apply Qlt_le_weak. now apply Qinv_lt_0_compat. }
+    rewrite E. field. exact Nz. }
+  split.
+  { unfold src_px_drift_offset, sweep_steps. field. exact Nz. }
+  split.
+  { unfold src_px_drift_offset, src_px_drift_smear_extra, sweep_steps.
+    assert (E : inject_Z (Z.of_nat Tn - 1) == inject_Z (Z.of_nat Tn) - 1).
+    { unfold Z.sub. rewrite inject_Z_plus, inject_Z_opp. reflexivity. }
+    rewrite E. field. exact Nz. }
+  intros pdo pwo Hp. unfold src_bounding_start_index, src_bounding_stop_index, box_lo, box_hi.
+  change (inject_Z 0) with 0. split.
+  - apply Qfloor_comp. rewrite Hp, Qmin_qmin. reflexivity.
+  - f_equal. apply Qceiling_comp. rewrite Hp, Qmax_qmax. reflexivity.
+Qed.
+Theorem k13_clamp start stop (Fn : nat) :
+  Z.to_nat (src_bounding_min_index start (Z.of_nat Fn)) = Signal.clampZ start Fn /\
+  Z.to_nat (src_bounding_max_index stop (Z.of_nat Fn)) = Signal.clampZ stop Fn.
+Proof. unfold src_bounding_min_index, src_bounding_max_index, Signal.clampZ. split; lia. Qed.
